@@ -68,7 +68,7 @@ func checkC19(c *Ctx) {
 	c.Set("exhaustive", true)
 
 	// the invariants are not vacuous: each wrong transcription is caught by TLC
-	for _, v := range []string{"prepend-nocopy", "replace-nocopy", "append-arg-first", "replace-inplace", "clear-keep"} {
+	for _, v := range []string{"prepend-nocopy", "replace-nocopy", "append-arg-first", "replace-inplace", "clear-keep", "prepend-inplace"} {
 		ops := 4
 		if v == "replace-inplace" {
 			ops = 5 // NewArg, Append, All, CallerMutate, Replace
@@ -76,13 +76,16 @@ func checkC19(c *Ctx) {
 		if v == "clear-keep" {
 			ops = 6 // NewArg, Append, All, Clear, a second caller slice or a caller mutation, Append
 		}
+		if v == "prepend-inplace" {
+			ops = 5 // NewArg, Append (with growth slack), CallerMutate, All, Prepend
+		}
 		r, err := RunTLC(TLCRun{Module: "Decorations", Cfg: c19Cfg(ops, 2, v, false), Workers: 4, Timeout: 5 * time.Minute})
 		if err != nil || r.Violated == "" {
 			c.Infra("TLC did not reject variant " + v + ": " + errText(r, err))
 			return
 		}
 	}
-	c.Set("spec_variants_rejected_by_tlc", 5)
+	c.Set("spec_variants_rejected_by_tlc", 6)
 
 	// (R) every behaviour of length genOps, emitted by TLC, replayed on the real type
 	gen, err := RunTLC(TLCRun{Module: "Decorations", Cfg: c19Cfg(genOps, 2, "code", true), Workers: 8, Timeout: 20 * time.Minute})
@@ -120,6 +123,19 @@ func checkC19(c *Ctx) {
 		c.TLC(cg)
 		c.Set("behaviours_held_across_clear", len(cg.Payloads("BEH ")))
 		behs = append(behs, cg.Payloads("BEH ")...)
+	}
+	// ... and those in which it holds one across a Prepend that follows two Appends (Go's append leaves
+	// spare capacity after the second one: NewArg, Append, Append, All, Prepend and one more action)
+	{
+		preCfg := strings.Replace(c19Cfg(6, 2, "code", true), `EmitFilter = "all"`, `EmitFilter = "prepend"`, 1)
+		pg, err := RunTLC(TLCRun{Module: "Decorations", Cfg: preCfg, Workers: 12, Timeout: 20 * time.Minute})
+		if err != nil || !pg.OK() {
+			c.Infra("TLC generation run (All() results held across Prepend) failed: " + errText(pg, err))
+			return
+		}
+		c.TLC(pg)
+		c.Set("behaviours_held_across_prepend", len(pg.Payloads("BEH ")))
+		behs = append(behs, pg.Payloads("BEH ")...)
 	}
 	c.Set("behaviours_emitted", len(behs))
 	c.Set("replay_bounds", fmt.Sprintf("all behaviours of exactly %d actions", genOps))
